@@ -9,33 +9,33 @@ Ltac conj := repeat match goal with |- _ /\ _ => split end.
 
 (* the property as stated: a scan after any history reports what the same scan reports on a freshly
    created scanner that was given the same settings *)
-Definition history_independent_statement (modnames : list ident)
+Definition history_independent_statement (cf : cfg) (modnames : list ident)
     (oracle : N -> N -> input -> objs -> option N -> residue -> natural) : Prop :=
   forall (o : objs) (h : list op) (i : input) (sc : script) (nr : option nat),
-    st_alive (run_state modnames oracle (fresh o) h) = true ->
-    snd (step modnames oracle (run_state modnames oracle (fresh o) h) (Scan i sc nr)) =
-    snd (step modnames oracle (run_state modnames oracle (fresh o) (filter is_setting h)) (Scan i sc nr)).
+    st_alive (run_state cf modnames oracle (fresh o) h) = true ->
+    snd (step cf modnames oracle (run_state cf modnames oracle (fresh o) h) (Scan i sc nr)) =
+    snd (step cf modnames oracle (run_state cf modnames oracle (fresh o) (filter is_setting h)) (Scan i sc nr)).
 
-Definition destroy_no_leak_statement (modnames : list ident)
+Definition destroy_no_leak_statement (cf : cfg) (modnames : list ident)
     (oracle : N -> N -> input -> objs -> option N -> residue -> natural) : Prop :=
   forall (o : objs) (h : list op),
-    st_alive (run_state modnames oracle (fresh o) h) = true ->
-    heap_live (fst (step modnames oracle (run_state modnames oracle (fresh o) h) Destroy)) = 0%nat.
+    st_alive (run_state cf modnames oracle (fresh o) h) = true ->
+    heap_live (fst (step cf modnames oracle (run_state cf modnames oracle (fresh o) h) Destroy)) = 0%nat.
 
-(* ------------------------------------------------------------------ refutations on the current tree *)
+(* ------------------------------------------------------------------ the code of the pinned commit is refuted *)
 
-(* entry point: scan a PE, then a text buffer *)
-Lemma history_independent_refuted_proof : ~ history_independent_statement [] toy_oracle.
+(* entry point: scan a PE, then a text buffer (repaired by c92ef8f) *)
+Lemma history_independent_pinned_refuted_proof : ~ history_independent_statement cfg_pinned [] toy_oracle.
 Proof.
   intros H. specialize (H [] [Scan inp_pe [] None] inp_text [] None eq_refl).
   vm_compute in H. discriminate H.
 Qed.
 
-(* an external variable that has the name of a module is removed by yr_modules_unload_all *)
+(* an external variable that has the name of a module was removed by yr_modules_unload_all (repaired by 9d2571f) *)
 Definition toy_oracle_x (flags timeout : N) (i : input) (o : objs) (ep : option N) (r : residue) : natural :=
   {| n_msgs := [(KRule, match lookup 7%N o with Some (PI z) => Z.to_N z | _ => 99%N end)];
      n_rc := 0; n_exec := true; n_pool := 0 |}.
-Lemma history_independent_refuted_module_name_proof : ~ history_independent_statement [7%N] toy_oracle_x.
+Lemma history_independent_pinned_refuted_module_name_proof : ~ history_independent_statement cfg_pinned [7%N] toy_oracle_x.
 Proof.
   intros H. specialize (H [(7%N, PI 1)] [Scan inp_text [] None] inp_text [] None eq_refl).
   vm_compute in H. discriminate H.
@@ -44,14 +44,13 @@ Qed.
 Lemma op_eq_Destroy_dec (o : op) : {o = Destroy} + {o <> Destroy}.
 Proof. destruct o; first [left; reflexivity | right; discriminate]. Qed.
 
-(* ------------------------------------------------------------------ the invariant *)
+(* ------------------------------------------------------------------ the invariant (current code) *)
 Section Proofs.
 Variable modnames : list ident.
 Variable oracle : N -> N -> input -> objs -> option N -> residue -> natural.
-Notation step := (step modnames oracle).
-Notation run_state := (run_state modnames oracle).
-Notation hist_ok := (hist_ok modnames oracle).
-Notation finish := (finish modnames oracle).
+Notation step := (step cfg_current modnames oracle).
+Notation run_state := (run_state cfg_current modnames oracle).
+Notation finish := (finish cfg_current modnames oracle).
 
 (* "all per-scan fields are at their initial value between scans" -- or hold exactly the data of the
    one scan that waits for a block *)
@@ -72,36 +71,12 @@ Record inv (s : sstate) : Prop := {
 Lemma inv_fresh o : inv (fresh o).
 Proof. constructor; cbn; auto; intros; discriminate. Qed.
 
+Lemma inv_with_ep s e : inv s -> inv (with_ep s e).
+Proof. intros I. destruct I. constructor; cbn; auto. Qed.
+
 (* same settings *)
 Definition sim (s s' : sstate) : Prop :=
   st_flags s = st_flags s' /\ st_timeout s = st_timeout s' /\ st_objs s = st_objs s'.
-
-(* a scanner that was only configured *)
-Definition pristine (s : sstate) : Prop :=
-  inv s /\ st_susp s = None /\ st_ep s = None.
-
-Lemma update_keys x v (o : objs) : map fst (update x v o) = map fst o.
-Proof.
-  induction o as [|[y w] t IH]; cbn; auto. destruct (N.eqb y x); cbn; congruence.
-Qed.
-
-Lemma scanner_define_keys o x d : map fst (fst (scanner_define o x d)) = map fst o.
-Proof.
-  unfold scanner_define. destruct (lookup x o) as [v|]; auto.
-  destruct d as [z|z|q|[s|]]; destruct v; cbn; auto using update_keys.
-Qed.
-
-Lemma no_module_names_keys o o' : map fst o = map fst o' -> no_module_names modnames o = no_module_names modnames o'.
-Proof.
-  unfold no_module_names. revert o'. induction o as [|[k v] t IH]; intros [|[k' v'] t'] H; cbn in *; try discriminate; auto.
-  injection H as -> H. now rewrite (IH _ H).
-Qed.
-
-Lemma remove_keys_id o : no_module_names modnames o = true -> remove_keys modnames o = o.
-Proof.
-  unfold no_module_names, mem. induction o as [|[k v] t IH]; cbn; auto. intros H.
-  apply andb_true_iff in H as [H1 H2]. apply negb_true_iff in H1. rewrite H1, IH; auto.
-Qed.
 
 Lemma run_state_cons s o t : run_state s (o :: t) = run_state (fst (step s o)) t.
 Proof. reflexivity. Qed.
@@ -115,42 +90,22 @@ Proof.
   rewrite run_state_cons, (step_dead s o H). now apply IH.
 Qed.
 
-Lemma run_state_app s a b : run_state s (a ++ b) = run_state (run_state s a) b.
-Proof. unfold ScannerHist.run_state. apply fold_left_app. Qed.
-
-Lemma hist_ok_app s a b : hist_ok s (a ++ b) = true -> hist_ok s a = true /\ hist_ok (run_state s a) b = true.
-Proof.
-  revert s. induction a as [|o t IH]; intros s H; cbn in *; auto.
-  destruct (match o with Define _ _ => _ | _ => _ end); try discriminate.
-  apply IH in H. exact H.
-Qed.
-
 Lemma cleaned_inv s ep fs o le pool : inv (cleaned s ep fs o le pool 0%nat).
 Proof. constructor; cbn; auto; intros; discriminate. Qed.
 
 (* finish from a state whose foreign residue is empty: clean state, settings kept *)
 Lemma finish_inv s i sc :
-  inv s -> no_module_names modnames (st_objs s) = true ->
-  let s1 := fst (finish s i sc no_residue 0%nat) in
-  inv s1 /\ st_susp s1 = None /\ st_flags s1 = st_flags s /\ st_timeout s1 = st_timeout s /\ st_objs s1 = st_objs s.
+  inv s ->
+  inv (fst (finish s i sc no_residue 0%nat)) /\ st_susp (fst (finish s i sc no_residue 0%nat)) = None /\
+  st_flags (fst (finish s i sc no_residue 0%nat)) = st_flags s /\
+  st_timeout (fst (finish s i sc no_residue 0%nat)) = st_timeout s /\
+  st_objs (fst (finish s i sc no_residue 0%nat)) = st_objs s.
 Proof.
-  intros I NM. unfold ScannerHist.finish.
-  destruct (deliver _ sc 0%nat) as [ms stop]. cbn.
-  assert (E : (if match stop with Some (k, _) => negb (before_exec k) | None => n_exec (oracle (st_flags s) (st_timeout s) i (st_objs s)
-                 match st_ep s with Some e => Some e | None => in_ep (st_flags s) i end no_residue) end
-               then remove_keys modnames (st_objs s) else st_objs s) = st_objs s).
-  { destruct (match stop with Some _ => _ | None => _ end); auto using remove_keys_id. }
+  intros I. unfold ScannerHist.finish. cbn [cf_unload_any cfg_current].
+  destruct (deliver _ sc 0%nat) as [ms stop]. cbn [fst].
+  rewrite Bool.andb_false_r.
   conj; cbn; auto using cleaned_inv.
 Qed.
-
-Definition op_ok (s : sstate) (o : op) : bool :=
-  match o with
-  | Define x d => match snd (scanner_define (st_objs s) x d) with RCrash => false | _ => true end
-  | _ => true
-  end.
-
-Lemma hist_ok_cons s o t : hist_ok s (o :: t) = (if op_ok s o then hist_ok (fst (step s o)) t else false).
-Proof. reflexivity. Qed.
 
 Lemma residue_idle s : inv s -> st_susp s = None -> residue_of s = no_residue.
 Proof.
@@ -167,108 +122,89 @@ Proof.
   - destruct (inv_idle _ I SU) as (_ & _ & _ & NB). rewrite NB. now apply residue_idle.
 Qed.
 
-(* one step keeps the invariant and the settings relation; a Destroy kills the scanner *)
+(* one step keeps the invariant on both scanners and the settings relation *)
 Lemma step_inv s s' o :
-  inv s -> sim s s' -> pristine s' -> no_module_names modnames (st_objs s) = true -> op_ok s o = true ->
-  o <> Destroy ->
-  let s1 := fst (step s o) in
-  let s1' := if is_setting o then fst (step s' o) else s' in
-  inv s1 /\ sim s1 s1' /\ pristine s1' /\ no_module_names modnames (st_objs s1) = true.
+  inv s -> inv s' -> sim s s' -> o <> Destroy ->
+  inv (fst (step s o)) /\ inv (if is_setting o then fst (step s' o) else s') /\
+  sim (fst (step s o)) (if is_setting o then fst (step s' o) else s').
 Proof.
-  intros I (SF & ST & SO) (I' & PS & PE) NM OK ND.
+  intros I I' (SF & ST & SO) ND.
   pose proof (inv_alive _ I) as AL. pose proof (inv_alive _ I') as AL'.
   destruct o as [i sc nr | nr | f | t | t | x d | ]; try congruence; cbn [is_setting].
   - (* Scan *)
-    unfold ScannerHist.step. rewrite AL. cbn [negb].
+    unfold ScannerHist.step. rewrite AL. cbn [negb cf_reset_ep cfg_current].
     rewrite (scan_residue_clean _ I), (inv_leaked _ I).
-    assert (FIN : inv (fst (finish s i sc no_residue 0%nat)) /\ sim (fst (finish s i sc no_residue 0%nat)) s' /\
-                  pristine s' /\ no_module_names modnames (st_objs (fst (finish s i sc no_residue 0%nat))) = true).
-    { destruct (finish_inv s i sc I NM) as (A & B & C & D & E).
-      unfold sim, pristine; conj; auto; congruence. }
+    pose proof (inv_with_ep s None I) as I0.
+    assert (FIN : inv (fst (finish (with_ep s None) i sc no_residue 0%nat)) /\ inv s' /\
+                  sim (fst (finish (with_ep s None) i sc no_residue 0%nat)) s').
+    { destruct (finish_inv (with_ep s None) i sc I0) as (A & B & C & D & E).
+      unfold sim; conj; auto; cbn in *; congruence. }
     destruct nr as [j|]; [|exact FIN].
     match goal with |- context [if n_exec ?x then _ else _] => destruct (n_exec x) end; [|exact FIN].
     destruct (Nat.ltb 0 j && Nat.leb j (in_nblocks i)); cbn [fst].
-    + split; [|unfold sim, pristine; conj; cbn; auto].
+    + split; [|unfold sim; conj; cbn; auto].
       constructor; cbn; auto; try discriminate.
       intros su [= <-]. cbn. auto.
-    + unfold sim, pristine; conj; cbn; auto.
+    + unfold sim; conj; cbn; auto.
   - (* Resume *)
     destruct (st_susp s) as [su|] eqn:SU.
-    2: { unfold ScannerHist.step. rewrite AL, SU. cbn [negb fst]. unfold sim, pristine; conj; auto. }
+    2: { unfold ScannerHist.step. rewrite AL, SU. cbn [negb fst]. unfold sim; conj; auto. }
     unfold ScannerHist.step. rewrite AL, SU. cbn [negb].
     destruct (inv_wait _ I su SU) as (M1 & M2 & M3).
     rewrite M1, M2, (inv_rule_flags _ I), (inv_ns _ I), (inv_disabled _ I), (inv_leaked _ I). cbn [removelast].
     destruct nr as [j|].
     + destruct (Nat.ltb (su_done su) j && Nat.leb j (in_nblocks (su_input su))); cbn [fst].
-      * split; [|unfold sim, pristine; conj; cbn; auto].
+      * split; [|unfold sim; conj; cbn; auto].
         constructor; cbn; auto; try discriminate. intros su' [= <-]. cbn. auto.
-      * unfold sim, pristine; conj; cbn; auto.
+      * unfold sim; conj; cbn; auto.
     + change {| r_matches := []; r_unconfirmed := []; r_disabled := []; r_rule_flags := []; r_ns_unsat := [] |} with no_residue.
-      destruct (finish_inv s (su_input su) (su_script su) I NM) as (A & B & C & D & E). cbn zeta.
-      unfold sim, pristine; conj; auto; congruence.
+      destruct (finish_inv s (su_input su) (su_script su) I) as (A & B & C & D & E).
+      unfold sim; conj; auto; congruence.
   - (* SetFlags *)
     unfold ScannerHist.step. rewrite AL, AL'. cbn [negb fst].
-    split; [|split; [|split]].
+    split; [|split].
     + destruct I. constructor; cbn; auto.
+    + destruct I'. constructor; cbn; auto.
     + unfold sim; cbn. conj; auto.
-    + unfold pristine; split; [destruct I'; constructor; cbn; auto | cbn; auto].
-    + cbn. auto.
   - (* SetTimeout *)
     unfold ScannerHist.step. rewrite AL, AL'. cbn [negb fst].
-    split; [|split; [|split]].
+    split; [|split].
     + destruct I. constructor; cbn; auto.
+    + destruct I'. constructor; cbn; auto.
     + unfold sim; cbn. conj; auto.
-    + unfold pristine; split; [destruct I'; constructor; cbn; auto | cbn; auto].
-    + cbn. auto.
   - (* PokeTimeout *)
     unfold ScannerHist.step. rewrite AL, AL'. cbn [negb fst].
-    split; [|split; [|split]].
+    split; [|split].
     + destruct I. constructor; cbn; auto.
+    + destruct I'. constructor; cbn; auto.
     + unfold sim; cbn. conj; auto.
-    + unfold pristine; split; [destruct I'; constructor; cbn; auto | cbn; auto].
-    + cbn. auto.
   - (* Define *)
     unfold ScannerHist.step. rewrite AL, AL'. cbn [negb]. rewrite <- SO.
-    pose proof (scanner_define_keys (st_objs s) x d) as K.
     destruct (scanner_define (st_objs s) x d) as [o' rc]. cbn [fst] in *.
-    split; [|split; [|split]].
+    split; [|split].
     + destruct I. constructor; cbn; auto.
+    + destruct I'. constructor; cbn; auto.
     + unfold sim; cbn. conj; auto.
-    + unfold pristine; split; [destruct I'; constructor; cbn; auto | cbn; auto].
-    + cbn [st_objs]. now rewrite (no_module_names_keys _ _ K).
 Qed.
 
 Lemma run_inv h : forall s s',
-  inv s -> sim s s' -> pristine s' -> no_module_names modnames (st_objs s) = true ->
-  hist_ok s h = true -> st_alive (run_state s h) = true ->
-  inv (run_state s h) /\ sim (run_state s h) (run_state s' (filter is_setting h)) /\
-  pristine (run_state s' (filter is_setting h)).
+  inv s -> inv s' -> sim s s' -> st_alive (run_state s h) = true ->
+  inv (run_state s h) /\ inv (run_state s' (filter is_setting h)) /\
+  sim (run_state s h) (run_state s' (filter is_setting h)).
 Proof.
-  induction h as [|o t IH]; intros s s' I S P NM OK AL.
+  induction h as [|o t IH]; intros s s' I I' S AL.
   - cbn. auto.
-  - rewrite hist_ok_cons in OK. destruct (op_ok s o) eqn:OO; try discriminate.
-    rewrite run_state_cons in *.
+  - rewrite run_state_cons in *.
     destruct (op_eq_Destroy_dec o) as [->|ND].
     + (* Destroy: the scanner is dead afterwards *)
       exfalso. rewrite dead_stays in AL.
       * unfold ScannerHist.step in AL. rewrite (inv_alive _ I) in AL. cbn in AL. discriminate.
       * unfold ScannerHist.step. rewrite (inv_alive _ I). reflexivity.
-    + destruct (step_inv s s' o I S P NM OO ND) as (I1 & S1 & P1 & NM1).
+    + destruct (step_inv s s' o I I' S ND) as (I1 & I1' & S1).
       cbn [filter]. destruct (is_setting o).
       * rewrite run_state_cons. apply IH; auto.
       * apply IH; auto.
 Qed.
-
-End Proofs.
-
-(* ------------------------------------------------------------------ the theorems *)
-Section Theorems.
-Variable modnames : list ident.
-Variable oracle : N -> N -> input -> objs -> option N -> residue -> natural.
-Notation step := (step modnames oracle).
-Notation run_state := (run_state modnames oracle).
-Notation hist_ok := (hist_ok modnames oracle).
-Notation finish := (finish modnames oracle).
 
 Lemma finish_trace s1 s2 i sc res l1 l2 :
   st_ep s1 = st_ep s2 -> st_flags s1 = st_flags s2 -> st_timeout s1 = st_timeout s2 -> st_objs s1 = st_objs s2 ->
@@ -278,113 +214,90 @@ Proof.
   destruct (deliver _ sc 0%nat) as [ms stop]. reflexivity.
 Qed.
 
-(* what a new scan reports depends on the state only through entry point, flags, timeout,
-   externals and lingering match data *)
+(* what a new scan reports depends on the state only through flags, timeout, externals and
+   lingering match data -- NOT on the entry point of an earlier scan *)
 Lemma scan_trace s1 s2 i sc nr :
   st_alive s1 = true -> st_alive s2 = true ->
-  st_ep s1 = st_ep s2 -> st_flags s1 = st_flags s2 -> st_timeout s1 = st_timeout s2 -> st_objs s1 = st_objs s2 ->
+  st_flags s1 = st_flags s2 -> st_timeout s1 = st_timeout s2 -> st_objs s1 = st_objs s2 ->
   match st_notebook s1 with Some _ => no_residue | None => residue_of s1 end =
   match st_notebook s2 with Some _ => no_residue | None => residue_of s2 end ->
   snd (step s1 (Scan i sc nr)) = snd (step s2 (Scan i sc nr)).
 Proof.
-  intros A1 A2 E F T O R. unfold ScannerHist.step. rewrite A1, A2. cbn [negb].
+  intros A1 A2 F T O R. unfold ScannerHist.step. rewrite A1, A2. cbn [negb cf_reset_ep cfg_current].
   rewrite R.
   destruct nr as [j|]; [|now apply finish_trace].
-  rewrite E, F, T, O.
+  cbn [with_ep st_ep]. rewrite F, T, O.
   match goal with |- context [if n_exec ?x then _ else _] => destruct (n_exec x) end.
   - destruct (Nat.ltb 0 j && Nat.leb j (in_nblocks i)); reflexivity.
   - apply finish_trace; auto.
 Qed.
 
-Lemma with_ep_same s : with_ep s (st_ep s) = s.
-Proof. destruct s; reflexivity. Qed.
+(* ------------------------------------------------------------------ the theorems *)
 
-(* history independence, excluding exactly the entry point: after any history (aborted, failed,
-   timed-out, suspended, resumed or abandoned scans), with no external variable named like a module, a scan reports what it reports on
-   a freshly created scanner with the same settings whose entry_point field holds the stale value *)
-Theorem history_independent_partial_proof : forall o h i sc nr,
-  no_module_names modnames o = true ->
-  hist_ok (fresh o) (h ++ [Scan i sc nr]) = true ->
-  st_alive (run_state (fresh o) h) = true ->
-  snd (step (run_state (fresh o) h) (Scan i sc nr)) =
-  snd (step (with_ep (run_state (fresh o) (filter is_setting h)) (st_ep (run_state (fresh o) h))) (Scan i sc nr)).
+(* C10 in full: after ANY history -- scans completed, aborted or failed from the callback, timed out,
+   stopped by too many matches, suspended and resumed or abandoned; flag, timeout and external
+   changes -- a scan reports exactly what it reports on a freshly created scanner with the same settings *)
+Theorem history_independent_proof : history_independent_statement cfg_current modnames oracle.
 Proof.
-  intros o h i sc nr NM OK AL.
-  apply hist_ok_app in OK as [OK1 OK2].
-  assert (P0 : pristine (fresh o)) by (unfold pristine; auto using inv_fresh).
-  destruct (run_inv modnames oracle h (fresh o) (fresh o) (inv_fresh o) (conj eq_refl (conj eq_refl eq_refl)) P0 NM OK1 AL)
-    as (I & (SF & ST & SO) & (I' & PS & PE)).
+  intros o h i sc nr AL.
+  destruct (run_inv h (fresh o) (fresh o) (inv_fresh o) (inv_fresh o) (conj eq_refl (conj eq_refl eq_refl)) AL)
+    as (I & I' & (SF & ST & SO)).
   apply scan_trace; auto.
-  - cbn. apply (inv_alive _ I').
-  - rewrite (scan_residue_clean _ I).
-    change (st_notebook (with_ep ?s ?e)) with (st_notebook s).
-    change (residue_of (with_ep ?s ?e)) with (residue_of s).
-    now rewrite (scan_residue_clean _ I').
+  - apply (inv_alive _ I').
+  - now rewrite (scan_residue_clean _ I), (scan_residue_clean _ I').
 Qed.
 
-(* ... hence full independence whenever no entry point was ever recorded (no PE/ELF scanned before) *)
-Corollary history_independent_no_entry_point_proof : forall o h i sc nr,
-  no_module_names modnames o = true ->
-  hist_ok (fresh o) (h ++ [Scan i sc nr]) = true ->
-  st_alive (run_state (fresh o) h) = true ->
-  st_ep (run_state (fresh o) h) = None ->
-  snd (step (run_state (fresh o) h) (Scan i sc nr)) =
-  snd (step (run_state (fresh o) (filter is_setting h)) (Scan i sc nr)).
-Proof.
-  intros o h i sc nr NM OK AL EP.
-  rewrite (history_independent_partial_proof o h i sc nr NM OK AL), EP.
-  pose proof OK as OK'. apply hist_ok_app in OK' as [OK1 _].
-  assert (P0 : pristine (fresh o)) by (unfold pristine; auto using inv_fresh).
-  destruct (run_inv modnames oracle h (fresh o) (fresh o) (inv_fresh o) (conj eq_refl (conj eq_refl eq_refl)) P0 NM OK1 AL)
-    as (_ & _ & (_ & _ & PE)).
-  now rewrite <- PE, with_ep_same.
-Qed.
-
-(* the per-scan fields are at their initial values between scans *)
+(* the invariant of the induction: between scans every per-scan field is at its initial value *)
 Theorem between_scans_clean_proof : forall o h,
-  no_module_names modnames o = true -> hist_ok (fresh o) h = true ->
   st_alive (run_state (fresh o) h) = true -> st_susp (run_state (fresh o) h) = None ->
   let s := run_state (fresh o) h in
   st_matches s = [] /\ st_unconfirmed s = [] /\ st_required s = [] /\ st_notebook s = None /\
   st_rule_flags s = [] /\ st_ns_unsat s = [] /\ st_disabled s = [] /\ st_mods s = [] /\ st_leaked s = 0%nat.
 Proof.
-  intros o h NM OK AL SU.
-  assert (P0 : pristine (fresh o)) by (unfold pristine; auto using inv_fresh).
-  destruct (run_inv modnames oracle h (fresh o) (fresh o) (inv_fresh o) (conj eq_refl (conj eq_refl eq_refl)) P0 NM OK AL)
+  intros o h AL SU.
+  destruct (run_inv h (fresh o) (fresh o) (inv_fresh o) (inv_fresh o) (conj eq_refl (conj eq_refl eq_refl)) AL)
     as (I & _ & _).
   destruct (inv_idle _ I SU) as (A & B & C & D). cbn zeta.
   conj; auto; apply I.
 Qed.
 
-(* destroy after any prefix -- also in the middle of a suspended scan -- releases everything *)
-Theorem destroy_no_leak_partial_proof : forall o h,
-  no_module_names modnames o = true ->
-  hist_ok (fresh o) (h ++ [Destroy]) = true ->
+(* the externals a scan sees are those of the settings, whatever was scanned *)
+Theorem settings_survive_proof : forall o h,
   st_alive (run_state (fresh o) h) = true ->
-  heap_live (fst (step (run_state (fresh o) h) Destroy)) = 0%nat.
+  let s := run_state (fresh o) h in let s' := run_state (fresh o) (filter is_setting h) in
+  st_flags s = st_flags s' /\ st_timeout s = st_timeout s' /\ st_objs s = st_objs s'.
 Proof.
-  intros o h NM OK AL.
-  apply hist_ok_app in OK as [OK1 OK2].
-  assert (P0 : pristine (fresh o)) by (unfold pristine; auto using inv_fresh).
-  destruct (run_inv modnames oracle h (fresh o) (fresh o) (inv_fresh o) (conj eq_refl (conj eq_refl eq_refl)) P0 NM OK1 AL)
+  intros o h AL.
+  destruct (run_inv h (fresh o) (fresh o) (inv_fresh o) (inv_fresh o) (conj eq_refl (conj eq_refl eq_refl)) AL)
+    as (_ & _ & S). exact S.
+Qed.
+
+(* destroy after any prefix -- also in the middle of a suspended scan -- releases everything *)
+Theorem destroy_no_leak_proof : destroy_no_leak_statement cfg_current modnames oracle.
+Proof.
+  intros o h AL.
+  destruct (run_inv h (fresh o) (fresh o) (inv_fresh o) (inv_fresh o) (conj eq_refl (conj eq_refl eq_refl)) AL)
     as (I & _ & _).
   unfold ScannerHist.step. rewrite AL. cbn [negb fst]. unfold heap_live. cbn. apply (inv_leaked _ I).
 Qed.
 
-End Theorems.
+End Proofs.
 
 (* ------------------------------------------------------------------ non-vacuity *)
 Definition example_history : list op :=
   [Scan inp_pe [] None; SetFlags 1; Scan inp_blocks [(0%nat, AnsAbort)] (Some 1%nat); Resume (Some 2%nat); Resume None;
-   Define 5%N (DI 4); PokeTimeout 1; Scan inp_text [(1%nat, AnsError)] None].
+   Define 5%N (DI 4); Define 5%N (DS None); PokeTimeout 1; Scan inp_text [(1%nat, AnsError)] None;
+   Scan inp_blocks [] (Some 1%nat); Scan inp_pe [] None; Scan inp_blocks [] (Some 1%nat)].
 
 Example hypotheses_satisfiable :
-  no_module_names [7%N] [(5%N, PI 3)] = true /\
-  hist_ok [7%N] toy_oracle (fresh [(5%N, PI 3)]) (example_history ++ [Scan inp_text [] None]) = true /\
-  hist_ok [7%N] toy_oracle (fresh [(5%N, PI 3)]) (example_history ++ [Destroy]) = true /\
-  st_alive (run_state [7%N] toy_oracle (fresh [(5%N, PI 3)]) example_history) = true /\
-  st_ep (run_state [7%N] toy_oracle (fresh [(5%N, PI 3)]) example_history) = Some 5344%N /\
-  snd (run [7%N] toy_oracle (fresh [(5%N, PI 3)]) example_history) =
+  st_alive (run_state cfg_current [7%N] toy_oracle (fresh [(5%N, PI 3); (7%N, PI 1)]) example_history) = true /\
+  st_ep (run_state cfg_current [7%N] toy_oracle (fresh [(5%N, PI 3); (7%N, PI 1)]) example_history) = None /\
+  st_susp (run_state cfg_current [7%N] toy_oracle (fresh [(5%N, PI 3); (7%N, PI 1)]) example_history) <> None /\
+  snd (run cfg_current [7%N] toy_oracle (fresh [(5%N, PI 3); (7%N, PI 1)]) example_history) =
     [TScan [(KRule, 1%N); (KRule, 10%N); (KFinished, 0%N)] 0; TNone; TScan [] ERROR_BLOCK_NOT_READY;
-     TScan [] ERROR_BLOCK_NOT_READY; TScan [(KRule, 1%N)] 0; TRes ROk; TNone; TScan [(KRule, 1%N); (KRule, 10%N)] ERROR_CALLBACK_ERROR].
-Proof. vm_compute. repeat split. Qed.
+     TScan [] ERROR_BLOCK_NOT_READY; TScan [(KRule, 0%N)] 0; TRes ROk; TRes (RErr ERROR_INVALID_ARGUMENT); TNone;
+     TScan [(KRule, 0%N); (KRule, 10%N)] ERROR_CALLBACK_ERROR; TScan [] ERROR_BLOCK_NOT_READY;
+     TScan [(KRule, 1%N); (KRule, 10%N); (KFinished, 0%N)] 0; TScan [] ERROR_BLOCK_NOT_READY] /\
+  snd (step cfg_current [7%N] toy_oracle (run_state cfg_current [7%N] toy_oracle (fresh [(5%N, PI 3); (7%N, PI 1)]) example_history) Destroy)
+    = TDestroyed 0.
+Proof. vm_compute. repeat split; discriminate. Qed.
